@@ -91,7 +91,7 @@ def gen_pairs(rng, n):
 def gen_cases(tier, seed):
     rng = random.Random(seed)
     thorough = tier == "thorough"
-    n = 5000 if thorough else 150
+    n = 5000 if thorough else 72
     pairs = gen_pairs(rng, n)
     # a few fixed, hand-picked relations are always included
     fixed = [("looks-like-prefix", ["app", f"{_prefix('app')}__broker_x"]), ("looks-like-prefix", ["app", f"{_prefix('app')}__state_backend"]),
@@ -101,7 +101,7 @@ def gen_cases(tier, seed):
     allp = fixed + pairs
     for i in range(0, len(allp), per):
         for backend in ("sqlite", "mem"):
-            cases.append({"backend": backend, "pairs": allp[i:i + per], "seed": rng.randrange(1 << 30), "nops": 24})
+            cases.append({"backend": backend, "pairs": allp[i:i + per], "seed": rng.randrange(1 << 30), "nops": 20})
     return cases
 
 
